@@ -295,12 +295,18 @@ Qed.
 
 (* row r of batch b, in every field, is the stored row number perm[b*bs + r] *)
 Theorem fields_aligned_rowwise (d : dataset) (perm : list nat) (bs : Z) :
-  (1 <= bs)%Z -> length perm = nrows d ->
+  wf_data d -> (1 <= bs)%Z -> Permutation perm (seq 0 (nrows d)) ->
   forall j k rows b r, nth_error d j = Some (k, rows) ->
   r < Z.to_nat bs -> b * Z.to_nat bs + r < nrows d ->
+  nth (b * Z.to_nat bs + r) perm 0 < length rows /\
   nth r (batch_field j (nth b (epoch d perm bs) [])) [] = nth (nth (b * Z.to_nat bs + r) perm 0) rows [].
 Proof.
-  intros Hbs Hlen j k rows b r Hj Hr Hin.
+  intros Hwf Hbs Hp j k rows b r Hj Hr Hin.
+  assert (Hlen : length perm = nrows d) by (rewrite (Permutation_length Hp); apply seq_length).
+  split.
+  { assert (Hrows : length rows = nrows d) by (apply (Hwf (k, rows)); apply nth_error_In in Hj; exact Hj).
+    rewrite Hrows. pose proof (perm_bound perm (nrows d) Hp) as Hb. rewrite Forall_forall in Hb.
+    apply Hb. apply nth_In. lia. }
   assert (E0 : batch_field j [] = []) by (unfold batch_field; destruct j; reflexivity).
   pose proof (map_nth (batch_field j) (epoch d perm bs) [] b) as E1. rewrite E0 in E1. rewrite <- E1. clear E1.
   destruct (batches_are_chunks d perm bs j k rows Hbs Hlen Hj) as [-> _].
@@ -654,17 +660,18 @@ Section Stream.
 
   (* ... with all fields of a row together: one index list serves every field *)
   Theorem iter_fields_aligned (s : dstate gen) :
-    (1 <= batch_size (cfg s))%Z ->
+    wf_data (data s) -> (1 <= batch_size (cfg s))%Z ->
     exists idx, Permutation idx (seq 0 (nrows (data s))) /\
       forall j k rows, nth_error (data s) j = Some (k, rows) ->
+        length rows = nrows (data s) /\
         concat (map (batch_field j) (fst (iter s))) = map (fun i => nth i rows []) idx /\
         Forall (fun b => map fst b = map fst (data s)) (fst (iter s)).
   Proof.
-    intros Hbs. exists (fst (randperm (rng s) (nrows (data s)))). split; [apply randperm_perm|].
+    intros Hwf Hbs. exists (fst (randperm (rng s) (nrows (data s)))). split; [apply randperm_perm|].
     intros j k rows Hj. rewrite iter_eq. simpl fst.
     assert (Hlen : length (fst (randperm (rng s) (nrows (data s)))) = nrows (data s)).
     { rewrite (Permutation_length (randperm_perm _ _)). apply seq_length. }
-    split.
+    split; [apply (Hwf (k, rows)); apply nth_error_In in Hj; exact Hj|]. split.
     - apply fields_aligned with (k := k); assumption.
     - apply (batches_are_chunks _ _ _ j k rows); assumption.
   Qed.
